@@ -470,6 +470,14 @@ func (eng *Engine) runInventories(names []string) []*Obligation {
 	var out []*Obligation
 	for _, n := range names {
 		switch n {
+		case "frozen-values":
+			bad := eng.inventoryFrozen()
+			o := &Obligation{Name: "inventory/frozen-values:fields of frozen types are written only where the object is allocated#1", Kind: "inventory", Fn: "inventory/frozen-values", Evaluated: true, Solver: "eval", Result: "unsat"}
+			if len(bad) > 0 {
+				o.Result = "sat"
+				o.Model = strings.Join(bad, "\n")
+			}
+			out = append(out, o)
 		case "ast-immutable":
 			bad := eng.inventoryImmutable(map[string]bool{"syntax": true, "zh": true})
 			o := &Obligation{Name: "inventory/ast-immutable:no store to a syntax-tree field outside the parser#1", Kind: "inventory", Fn: "inventory/ast-immutable", Evaluated: true, Solver: "eval", Result: "unsat"}
